@@ -43,10 +43,11 @@ ASSUMPTIONS = [
     "nothing is asserted about WHICH verdict is returned (C07/C08)",
 ]
 TIERS = {
-    "quick": {"runs": 48, "chunk": 1, "wall": 90, "chunk_timeout": 500, "selftest": 4},
+    "quick": {"runs": 48, "chunk": 1, "wall": 80, "chunk_timeout": 500, "selftest": 4},
     "thorough": {"runs": 700, "chunk": 1, "wall": 800, "chunk_timeout": 900, "selftest": 8},
 }
 ISOLATE_RUNS = True
+OPTIMIZE_SHARE = 0.06      # this share of the runs executes under `python -O`
 
 
 def preload():
@@ -262,7 +263,7 @@ def run_one(seed: int, index: int, tier: str) -> dict:
     # generate until the tree is a valid schema (trimming may orphan a reference)
     for attempt in range(6):
         root = small_tree(rng)
-        files = K.tree_files(root, style=rng.randint(0, 1))
+        files = K.tree_files(root, style=rng.randrange(8))
         if rl.random() < 0.3:
             # a licence-style banner: long runs of '*' inside a block comment (every truncation inside it is an
             # unterminated comment ending in a run of stars)
@@ -282,8 +283,8 @@ def run_one(seed: int, index: int, tier: str) -> dict:
         with Scratch("c11g") as base:
             K.write_files(base, files)
             ctl = par.parse("file", base / "main.fcp", "fresh")
-        if ctl["outcome"] == "ok":
-            break
+        if ctl["outcome"] == "ok" and (sum(len(v) for v in files.values()) <= 1200 or attempt >= 4):
+            break       # every byte offset is a fault point and parse cost grows with the prefix: keep trees small
     else:
         res["harness_errors"].append(f"run {index}: could not generate a valid small tree: {ctl.get('detail')}")
         res["digest"] = "x"
